@@ -3593,7 +3593,7 @@ bn_mod_sqrt(bn_p bn, bn_p m, bn_mod_rd_data_p mod_rd_data) {
 		/* Initialize random algorithm. */
 		BN_RET_ON_ERR(bn_assign(&b, bn));
 		BN_RET_ON_ERR(bn_assign(&tm, m));
-		bits = bn_calc_bits(&b);
+		bits = bn_calc_bits(m); /* Trials count: from modulus, not from (possible small) value. */
 		do {
 			bn_r_shift(&tm, 1);
 			BN_RET_ON_ERR(bn_xor(&b, &tm));
